@@ -65,3 +65,67 @@ func pathTo(cg *callgraph.Graph, roots []*ssa.Function, target *ssa.Function) []
 	}
 	return nil
 }
+
+// mayRaise: functions from which a call through LState.Panic (a Lua error) can be reached, following
+// the VTA call graph. Calls through the Panic field itself are the seeds.
+func (p *Prog) mayRaise() map[*ssa.Function]bool {
+	if p.raises != nil {
+		return p.raises
+	}
+	cg := p.CallGraph()
+	set := map[*ssa.Function]bool{}
+	var work []*ssa.Function
+	for fn := range cg.Nodes {
+		if fn == nil || fn.Blocks == nil {
+			continue
+		}
+		seed := false
+		allInstrs(fn, func(in ssa.Instruction) {
+			if p.isAxiomCall(in) {
+				seed = true
+			}
+		})
+		if seed {
+			set[fn] = true
+			work = append(work, fn)
+		}
+	}
+	for len(work) > 0 {
+		f := work[len(work)-1]
+		work = work[:len(work)-1]
+		n := cg.Nodes[f]
+		if n == nil {
+			continue
+		}
+		for _, e := range n.In {
+			if c := e.Caller.Func; c != nil && !set[c] {
+				set[c] = true
+				work = append(work, c)
+			}
+		}
+	}
+	p.raises = set
+	return set
+}
+
+// siteMayRaise: some callee of this call site may raise a Lua error.
+func (p *Prog) siteMayRaise(in ssa.Instruction) (bool, string) {
+	if p.isAxiomCall(in) {
+		return true, "LState.Panic"
+	}
+	site, ok := in.(ssa.CallInstruction)
+	if !ok {
+		return false, ""
+	}
+	n := p.CallGraph().Nodes[in.Parent()]
+	if n == nil {
+		return false, ""
+	}
+	set := p.mayRaise()
+	for _, e := range n.Out {
+		if e.Site == site && e.Callee.Func != nil && set[e.Callee.Func] {
+			return true, fname(e.Callee.Func)
+		}
+	}
+	return false, ""
+}
